@@ -65,7 +65,7 @@ def setup():
 
 # position of the RVA argument per operation family (see harness/src/ops_img.rs, ops_typed.rs)
 RVA_ARG = {"slice": 2, "r2f": 2, "r2v": 2, "byrva": 2, "derva": 3, "derva_copy": 3, "derva_into": 3, "derva_slice": 3,
-           "derva_slice_s": 3, "derva_cstr": 2}
+           "derva_slice_s": 3, "derva_cstr": 2, "slice_bytes": 2, "derva_slice_f": 3}
 
 
 def changed_sources(pid):
@@ -278,6 +278,9 @@ def check(pid, tier):
     cov["distinct_nontrivial"] = len(distinct)
     cov["samples"] = samples
     cov["known_findings_printed"] = known_printed
+    if hasattr(P, "stats"):
+        # how many operations each direct oracle of the property actually judged (and why it skipped the others)
+        cov["oracle_judged"] = P.stats()
 
     # optimized build (properties that quantify over both build profiles, C01/C02): the same operation
     # lines through a --release harness, judged by the property's `release_judge` (the direct oracle
